@@ -49,6 +49,28 @@ def model_check(ctx, r):
     if res2.violated:
         r.machinery_error = "NestedRuns.tla: %s violated on the nesting model" % res2.violated
         return None
+    # unbounded safety: the inductive invariant of spec/apalache/MC_AlgLoopInd.tla, for every max_iter in Nat (Apalache)
+    import shutil
+
+    for f in ("AlgLoop.tla", os.path.join("apalache", "MC_AlgLoopInd.tla")):
+        shutil.copy(os.path.join(tlc.SPEC_DIR, f), wd)
+    for label, args in (("base case", ["--init=Init", "--length=0"]), ("induction step", ["--init=IndInit", "--length=1"])):
+        try:
+            pa = subprocess.run(["apalache-mc", "check"] + args + ["--inv=IndInvS", "--out-dir=" + os.path.join(wd, "apa"), "MC_AlgLoopInd.tla"], cwd=wd,
+                                stdout=subprocess.PIPE, stderr=subprocess.STDOUT, text=True, timeout=600)
+            out = pa.stdout
+        except (OSError, subprocess.TimeoutExpired) as e:
+            r.notes.append("Apalache %s not run (%s); the bounded TLC result stands" % (label, type(e).__name__))
+            continue
+        if "The outcome is: NoError" in out:
+            r.notes.append("Apalache: %s of the inductive invariant IndInvS (all max_iter in Nat) - NoError" % label)
+            r.cmds.append("apalache-mc check %s --inv=IndInvS MC_AlgLoopInd.tla" % " ".join(args))
+        elif "The outcome is: Error" in out:
+            r.machinery_error = "Apalache: %s of IndInvS fails on AlgLoop.tla (the design or the invariant changed)" % label
+            return None
+        else:
+            r.notes.append("Apalache %s inconclusive: %s" % (label, out.strip().splitlines()[-1][:200] if out.strip() else "no output"))
+    shutil.rmtree(os.path.join(wd, "apa"), ignore_errors=True)
     # second run for the labelled graph (coverage and dot dump do not combine well)
     cmd = ["java", "-XX:+UseParallelGC", "-DTLA-Library=" + tlc.SPEC_DIR, "-cp", tlc.JARS, "tlc2.TLC", "-workers", "1", "-metadir", os.path.join(wd, "meta2"),
            "-noGenerateSpecTE", "-deadlock", "-dump", "dot,actionlabels", dot, "-config", os.path.join(wd, "MC_AlgLoop.cfg"), os.path.join(wd, "MC_AlgLoop.tla")]
